@@ -1,4 +1,5 @@
 import Marwood.Lemmas.PrepareHG
+import Marwood.Lemmas.PrepareEnvCode
 import Marwood.Lemmas.PrepareCode
 import Marwood.Lemmas.PreparePInv
 import Marwood.Lemmas.ProcInvMain
@@ -42,15 +43,15 @@ structure InstRes (h h' : CHeap) : Prop where
 theorem InstRes.refl {h : CHeap} (g : HG h) (gr : GlobRoots h) (ci : CInvG IsValue h) (hp : HP h) : InstRes h h :=
   ⟨g, .refl h, gr, ci, fun _ _ x => x, hp, fun _ _ x => x⟩
 
-theorem instStep_all {Q : CLambda → Prop} (hQ : ∀ cl, Q cl → CodeOk cl) {h h' : CHeap} (st : InstStep Q h h')
+theorem instStep_all {Q : CHeap → CLambda → Prop} (hQ : ∀ h cl, Q h cl → CodeOk cl) {h h' : CHeap} (st : InstStep Q h h')
     (g : HG h) (gr : GlobRoots h) (ci : CInvG IsValue h) (hp : HP h) (sm : Small h') : InstRes h h' := by
-  obtain ⟨g', m, gr'⟩ := instStep_hg (fun cl q => (hQ cl q).lamOk) st g gr sm
+  obtain ⟨g', m, gr'⟩ := instStep_hg (fun h cl q => (hQ h cl q).lamOk) st g gr sm
   obtain ⟨ci', code⟩ := instStep_cinv hQ st (HInv.of_wf g.wf) ci
   obtain ⟨hp', ne⟩ := instStep_hp st g gr (.of_cinv ci) hp sm
   exact ⟨g', m, gr', ci', code, hp', ne⟩
 
 /-- **a sequence of loader steps keeps the heap clauses of the bundled invariant** -/
-theorem instSteps_all {Q : CLambda → Prop} (hQ : ∀ cl, Q cl → CodeOk cl) {h h' : CHeap} (st : InstSteps Q h h')
+theorem instSteps_all {Q : CHeap → CLambda → Prop} (hQ : ∀ h cl, Q h cl → CodeOk cl) {h h' : CHeap} (st : InstSteps Q h h')
     (g : HG h) (gr : GlobRoots h) (ci : CInvG IsValue h) (hp : HP h) (sm : Small h') : InstRes h h' := by
   induction st with
   | refl h => exact .refl g gr ci hp
@@ -62,7 +63,7 @@ theorem instSteps_all {Q : CLambda → Prop} (hQ : ∀ cl, Q cl → CodeOk cl) {
       fun v hv hn => r2.ne v (hv.mono r1.mono) (r1.ne v hv hn)⟩
 
 /-- the decoding discipline and the allocator invariant along loader steps -/
-theorem instSteps_codePlain {Q : CLambda → Prop} (hQ : ∀ cl, Q cl → CodeOk cl) {h h' : CHeap} (st : InstSteps Q h h')
+theorem instSteps_codePlain {Q : CHeap → CLambda → Prop} (hQ : ∀ h cl, Q h cl → CodeOk cl) {h h' : CHeap} (st : InstSteps Q h h')
     (inv : HInv h) (cp : CodePlain h) : HInv h' ∧ CodePlain h' := by
   induction st with
   | refl h => exact ⟨inv, cp⟩
@@ -113,7 +114,7 @@ theorem roots_later {s : St CHeap} {h' : CHeap} (g : GoodI s) (m : Mono s.heap h
 /-- loader steps (of an accepted or of a rejected form) keep the idle invariant -/
 theorem IdleOk.installs {s s' : St CHeap} (i : IdleOk s) (st : InstallsGarbage s s') (sm : Small s'.heap) :
     IdleOk s' ∧ InstRes s.heap s'.heap := by
-  have r := instSteps_all (fun _ q => q) st.steps i.good.hg i.good.globRoots i.ci i.pinv.hp sm
+  have r := instSteps_all (fun _ _ q => q.code) st.steps i.good.hg i.good.globRoots i.ci i.pinv.hp sm
   refine ⟨?_, r⟩
   rw [st.regs]
   refine ⟨⟨r.hg, roots_later i.good r.mono r.gr, i.good.accv⟩, r.ci, ⟨r.hp, ?_, ?_⟩, i.sp0, i.cap⟩
@@ -182,7 +183,7 @@ theorem prepare_vmOkP {e : Datum} {fuel : Nat} {s s' : St CHeap} {entry : Nat} (
 /-- the decoding discipline of code objects (C12's `CodePlain`) survives `prepare_eval` -/
 theorem installs_codePlain {s s' : St CHeap} (i : IdleOk s) (st : InstallsGarbage s s') (cp : CodePlain s.heap) :
     CodePlain s'.heap :=
-  (instSteps_codePlain (fun _ q => q) st.steps (HInv.of_wf i.good.hg.wf) cp).2
+  (instSteps_codePlain (fun _ _ q => q.code) st.steps (HInv.of_wf i.good.hg.wf) cp).2
 
 /-! ## the epilogues leave an idle machine -/
 
